@@ -13,6 +13,18 @@ NA = {
 PENDING = "check not built yet (planned, DESIGN.md section 6)"
 
 CHECKS = {
+    "C14": dict(
+        category="proof",
+        text="Partial, mechanisms only. Deductive: the --option merge of main.main_with_args (slice): every name=value is split "
+             "at the first '=', typed as the YAML file would type it (true/false -> bool, digits -> int, else text), a missing "
+             "'=' stops with SystemExit. Call-site obligations computed from the AST: every attribute of `args` that "
+             "main_with_args reads is set by create_wrapper and defined by the argument parser, with the same defaults. "
+             "Three genuine defects found and fixed. Whole-run identity is only monitored (bounded, thorough tier).",
+        design_ref="6/C14",
+        note="Not covered: util.Scope lookup semantics and per-node scope wiring (planned), attrs/fattrs merge, identity of "
+             "whole runs (bounded monitor m_options).",
+        technique="contract-based deductive verification (AST-generated VCs) + AST call-site obligations",
+    ),
     "C11": dict(
         category="proof",
         text="Deductive: the enum value loop of ast.EnumNode.__init__ (slice, members as a symbolic list) against the C++ "
